@@ -121,6 +121,8 @@ func (g *G) exprName(e ast.Expr, c *fctx) string {
 	switch t {
 	case "beginSeqNo":
 		return "EBegin"
+	case "endSeqNo":
+		return "EEnd"
 	case "endSeqNo+1":
 		return "EEnd1"
 	case "seqNum":
